@@ -824,10 +824,65 @@ pub fn run_c10(ctx: &Ctx) -> i32 {
         }
         (sink, n, nontrivial, classes, sample)
     });
+    // the reference id is a field the classification must not depend on either: every id of the form 127.127.t.u
+    // (chronyd's reference clocks and its `local` reference), the usual four-letter names, addresses of special
+    // ranges, single bits - each with a fresh report (Synchronized), a stale one and one from the future
+    let mut ref_ids: Vec<u32> = (0..65536u32).map(|x| 0x7F7F_0000 | x).collect();
+    for name in [b"LOCL", b"GPS\0", b"PPS\0", b"PHC0", b"phc0", b"NMEA", b"SHM0", b"SOCK", b"INIT", b"STEP", b"RATE", b"DENY", b"XFAC", b"GOES", b"LOCA"] {
+        ref_ids.push(u32::from_be_bytes(*name));
+    }
+    ref_ids.extend([0u32, 1, 0x7F00_0001, 0xA9FE_A97B, 0xA9FE_A9FE, 0x0A00_0001, 0xC0A8_0001, 0xE000_0001, 0xFFFF_FFFF, 0x8000_0000, 0x7FFF_FFFF, 0xFD00_EC2D]);
+    ref_ids.extend((0..32).map(|b| 1u32 << b));
+    ref_ids.sort();
+    ref_ids.dedup();
+    let id_chunks: Vec<&[u32]> = ref_ids.chunks(4096).collect();
+    let id_parts = par::map(id_chunks.len(), |ci| {
+        let mut sink = Sink::new();
+        let now = R0;
+        let as_of = libc::timespec { tv_sec: 5000, tv_nsec: 1 };
+        let ib = encode_float(16.0);
+        let ages: [i128; 3] = [S, 1_000_000 * S, -S];
+        let mut msgs: Vec<Message> = vec![Out::S1.message(now, 0, as_of)];
+        let mut expect: Vec<(usize, u32, i128)> = vec![];
+        for &id in id_chunks[ci] {
+            for age in ages {
+                msgs.push(Out::S1.message(now, 0, as_of));
+                let t = TrackSpec { ref_id: id, leap: 0, ref_time_ns: now - age, offset_bits: encode_float(0.001), delay_bits: encode_float(0.01), disp_bits: encode_float(0.01), interval_bits: ib };
+                msgs.push(Message::ClockErrorBoundData((tracking_of(&t), 0, as_of)));
+                expect.push((msgs.len() - 1, id, age));
+            }
+        }
+        vclock::arm(VClock { real_ns: now, mono_ns: 5001 * S, auto_advance_ns: 0, fail_errno: 0, fail_clock: -1 });
+        let total = msgs.len();
+        let r = std::panic::catch_unwind(|| pipeline::published_for(msgs, 1000));
+        vclock::disarm();
+        let mut n = 0u64;
+        match r {
+            Ok(recs) if recs.len() == total => {
+                for (pi, id, age) in expect {
+                    n += 1;
+                    if let Some(e) = ref_classify(0, ib, age) {
+                        if recs[pi].status != e {
+                            sink.add(format!("C10:reference-id:{}", status_name(recs[pi].status)), format!("leap status 0, update interval 16 s, reference time {age} ns old, reference id {id:#010X} ({}): published {} but the report classifies as {} - as it does with any other reference id", std::net::Ipv4Addr::from(id), status_name(recs[pi].status), status_name(e)),
+                                json!({"check": "C10", "leap_status": 0, "update_interval_s": 16.0, "reference_time_age_ns": age.to_string(), "status_before": "Synchronized", "published_status": status_name(recs[pi].status), "unrelated_report_fields_variant": 0, "wall_clock_ns": now.to_string(), "reference_id": id}));
+                        }
+                    }
+                }
+            }
+            Ok(recs) => sink.add("C10:publication-count".into(), format!("{total} messages, {} publications", recs.len()), json!({"check": "C10", "reference_id_chunk": ci})),
+            Err(p) => sink.add("C10:panic".into(), format!("writer thread panicked: {}", panic_text(p)), json!({"check": "C10", "reference_id_chunk": ci})),
+        }
+        (sink, n)
+    });
     let mut sink = Sink::new();
     let (mut n, mut nt) = (0, 0);
     let mut classes: BTreeMap<String, u64> = BTreeMap::new();
     let mut samples = vec![];
+    let mut ref_id_cases = 0u64;
+    for (s2, k) in id_parts {
+        sink.merge(s2);
+        ref_id_cases += k;
+    }
     for (s, k, t, c, sm) in parts {
         sink.merge(s);
         n += k;
@@ -903,6 +958,7 @@ pub fn run_c10(ctx: &Ctx) -> i32 {
         ("evaluations", json!(n)),
         ("distinct_nontrivial", json!(nt)),
         ("identical_report_repeated_cases", json!(p2)),
+        ("reference_id_cases", json!({"cases": ref_id_cases, "rule": "every reference id 127.127.t.u (65536), fifteen four-letter names, special addresses and single bits, each with a fresh, a stale and a future reference time (leap status 0, interval 16 s)"})),
         ("rule", json!("all leap-status values (step given) x update-interval alphabet x reference-time ages at -1 ns, -1 s, 0, 8I-1ns, 8I, 8I+1ns, floor(8I) s, floor(8I)+1 s, 1e6 s x status before (Synchronized / FreeRunning / Unknown, each after a first synchronised report); all distinct; non-trivial = leap status 0..3 or a future reference time")),
         ("samples", json!(samples)),
         ("leap_status_values", json!(leaps.len())),
@@ -955,6 +1011,12 @@ fn report_digest(t: &chrony_candm::reply::Tracking) -> u64 {
     format!("{t:?}").hash(&mut h);
     h.finish()
 }
+
+/// What a readable PHC error-bound attribute can say instead of a number (Step::phc_read_errno = -(index + 1)).
+const PHC_CONTENTS: [(&str, &[u8]); 9] = [
+    ("empty (zero bytes)", b""), ("a newline only", b"\n"), ("blanks", b" \t \n"), ("a number with a unit", b"12345 ns\n"), ("two lines", b"5\n6\n"),
+    ("hexadecimal", b"0x10\n"), ("a float", b"1e3\n"), ("not UTF-8", b"\xff\xfe12\n"), ("a NUL byte", b"\x0012\n"),
+];
 
 fn msg_class(m: &Message) -> String {
     match m {
@@ -1034,13 +1096,16 @@ fn poller_run(steps: &[Step], phc_cfg: bool, dir: &std::path::Path, vary_report:
                 (None, Ans::Other) => Answer::Wire(null_reply_wire(7)),
                 _ => Answer::Silent,
             };
-            if stp.phc_readable || stp.phc_read_errno != 0 {
+            if stp.phc_read_errno < 0 {
+                // the attribute opens and reads without an error, but what it says is not a number of nanoseconds
+                let _ = std::fs::write(&file1, PHC_CONTENTS[(-stp.phc_read_errno - 1) as usize].1);
+            } else if stp.phc_readable || stp.phc_read_errno != 0 {
                 // the device's error bound changes from one poll to the next
                 pipeline::write_sysfs_like(&file1, 12345 + 7 * k as i64);
             } else {
                 let _ = std::fs::remove_file(&file1);
             }
-            if !stp.phc_readable && stp.phc_read_errno != 0 {
+            if !stp.phc_readable && stp.phc_read_errno > 0 {
                 crate::common::iofault::fail_reads_of("phc_error_bound", stp.phc_read_errno);
             }
             Query { answer, latency_ns: stp.latency_ms as i128 * 1_000_000 }
@@ -1242,10 +1307,42 @@ pub fn run_c13(ctx: &Ctx) -> i32 {
             }
         }
     }
+    // a readable attribute that does not hold a number: "cannot be read" as far as the error bound is concerned. The
+    // report of such a poll must not be used as a measurement (the unmodified poller dies on it, which ends the
+    // daemon - that is acceptable here, C15 sees to the rest)
+    let mut content_cases = vec![];
+    {
+        let dir = base.join("c13-contents");
+        let _ = std::fs::create_dir_all(&dir);
+        for (vi, (what, _)) in PHC_CONTENTS.iter().enumerate() {
+            for first_ok in [true, false] {
+                let mut steps = vec![];
+                if first_ok {
+                    steps.push(Step { ans: Ans::TrackA, phc_readable: true, gap_ms: 1000, latency_ms: 0, phc_read_errno: 0, wall_step_ms: 0 });
+                }
+                steps.push(Step { ans: Ans::TrackA, phc_readable: true, gap_ms: 1000, latency_ms: 0, phc_read_errno: -(vi as i32) - 1, wall_step_ms: 0 });
+                let r = poller_run(&steps, true, &dir, false);
+                let _ = HELD_AFTER_LIFETIME.with(|h| h.replace((0, 0)));
+                let outcome = match &r {
+                    Err(_) => "the polling thread died".to_string(),
+                    Ok(res) => {
+                        let last = res.last().map(|(m, _)| m.iter().map(msg_class).collect::<Vec<_>>()).unwrap_or_default();
+                        if last.iter().any(|c| c.starts_with("data(")) {
+                            sink.add("C13:unparsable-phc-content-used".into(), format!("PHC configured and chronyd's reference; the error-bound attribute is readable but holds {what}: the poll's report was forwarded as a measurement ({:?}) although no error bound could be read from the attribute", last),
+                                json!({"check": "C13", "phase": "attribute content", "phc_configured": true, "steps": steps.iter().map(|s| json!({"answer": format!("{:?}", s.ans), "phc_file_readable": s.phc_readable, "phc_read_errno": s.phc_read_errno, "gap_ms": s.gap_ms, "reply_latency_ms": s.latency_ms})).collect::<Vec<_>>(), "content": what}));
+                        }
+                        format!("{last:?}")
+                    }
+                };
+                content_cases.push(json!({"attribute_holds": what, "after_a_good_poll": first_ok, "outcome": outcome}));
+            }
+        }
+    }
     // end to end through the release binary (procmc/e2e.rs): the PHC clause as the daemon is really started
     let e2e = c13_end_to_end(ctx, &mut sink);
     let coverage = cov(vec![
         ("end_to_end_through_the_release_binary", e2e),
+        ("readable_attribute_that_is_not_a_number", json!(content_cases)),
         ("long_lifetime_polls", json!(long_steps.len())),
         ("polls_in_lifetimes_that_repeat_one_step_kind_1000_times", json!(repeated_polls)),
         ("states", json!(alpha.len() * 2)),
@@ -1749,7 +1846,7 @@ fn replay(ctx: &Ctx, path: &std::path::Path) -> i32 {
             let mut runs = vec![];
             for _ in 0..2 {
                 pipeline::set_aux_variant(aux);
-                let t = TrackSpec { ref_id: 0, leap, ref_time_ns: now - age, offset_bits: encode_float(0.001), delay_bits: encode_float(0.01), disp_bits: encode_float(0.01), interval_bits: ib };
+                let t = TrackSpec { ref_id: c["reference_id"].as_u64().unwrap_or(0) as u32, leap, ref_time_ns: now - age, offset_bits: encode_float(0.001), delay_bits: encode_float(0.01), disp_bits: encode_float(0.01), interval_bits: ib };
                 let msgs = vec![Out::S1.message(now, 0, as_of), prefix.message(now, 0, as_of), Message::ClockErrorBoundData((tracking_of(&t), 0, as_of))];
                 vclock::arm(VClock { real_ns: now, mono_ns: 5001 * S, auto_advance_ns: 0, fail_errno: 0, fail_clock: -1 });
                 let r = std::panic::catch_unwind(|| pipeline::published_for(msgs, 1000));
